@@ -54,12 +54,12 @@ Definition with_domain (F : Fops Z) (p : Z) (c : fftcfg Z) (a : list (list Z))
   | RNone => err 0
   | RPanic => panic
   | RSome d =>
-      match arg 4 a with
-      | [] => f d
-      | h :: _ => match get_coset F d (h mod p) with
-                  | None => err 1
-                  | Some d' => f d'
-                  end
+      (* a4 = [h1; h2; ...]: new(n).get_coset(h1).get_coset(h2)... (each get_coset REPLACES the offset; a chain must
+         leave no stale offset_inv / offset_pow_size behind) *)
+      match fold_left (fun (o : option (domain Z)) h => match o with Some d0 => get_coset F d0 (h mod p) | None => None end)
+                      (arg 4 a) (Some d) with
+      | None => err 1
+      | Some d' => f d'
       end
   end.
 
